@@ -448,6 +448,10 @@ func (x *Exec) applyHavoc(st *State, m modTarget) {
 		return
 	}
 	srt := m.sort
+	if m.whole {
+		x.havocKey(st, m.key, srt)
+		return
+	}
 	arr := x.heapGet(st, m.key, srt)
 	if m.lo == nil {
 		// value stored per object: a scalar leaf, a whole backing array, or a whole map column
@@ -675,6 +679,9 @@ func (x *Exec) frameCheckRangeCond(st *State, cond *Term, key string, base, lo, 
 		if m.key != key {
 			continue
 		}
+		if m.whole {
+			return
+		}
 		c := Eq(base, m.base)
 		if m.lo != nil {
 			c = And(c, Le(m.lo, lo), Le(hi, m.hi))
@@ -853,6 +860,9 @@ func (x *Exec) frameCheckMap(st *State, root string, ref *Term, pos token.Pos) {
 			return
 		}
 		if strings.HasPrefix(m.key, root) || (m.key == "" && m.root == root) {
+			if m.whole {
+				return
+			}
 			alts = append(alts, Eq(ref, m.base))
 		}
 	}
